@@ -53,8 +53,7 @@ MUTANTS = [
      "            for isim in world.sims.values():\n                advance_progress(isim, world)",
      "            advance_progress(sim, world)", ["C05"]),
     ("lazy_dropped", "mosaik/scheduler.py",
-     "    if lazy_stepping:\n        for suc_sim, adapt in sim.successors.items():",
-     "    if False:\n        for suc_sim, adapt in sim.successors.items():", ["C10"]),
+     "    if lazy_stepping:\n        # Lazy stepping only", "    if False:\n        # Lazy stepping only", ["C10"]),
     ("max_advance_no_ancestors", "mosaik/scheduler.py",
      "    return min([*ancs_next_steps, *own_next_step, until + 1]) - 1",
      "    return min([*own_next_step, until + 1]) - 1", ["C07"]),
